@@ -18,8 +18,8 @@ RULE = ('random lenses x one metamorphic relation each: mirror about the xz-plan
         's in [0.01,100] (rebuilt from the scaled spec), and Optic.scale_system(s) vs the lens built from the scaled spec '
         '(planes/conics, angular fields); non-trivial = >= 2 powered surfaces and >= 5 finite rays at the image; '
         'distinct = distinct case hash')
-TIERS = {'quick': dict(shards=6, cases=60), 'thorough': dict(shards=16, cases=1500)}
-MIN_NONTRIVIAL = {'quick': 120, 'thorough': 2000}
+TIERS = {'quick': dict(shards=8, cases=150), 'thorough': dict(shards=16, cases=2500)}
+MIN_NONTRIVIAL = {'quick': 400, 'thorough': 4000}
 MIN_EVALS = {'mirror-symmetry': 30, 'tilt-about-centre-of-curvature': 20, 'dummy-surface': 20, 'wavelength-invariance': 20,
              'length-scaling': 20, 'scale_system-prescription': 15, 'scale_system-rays': 15, 'length-scaling-seidel-f2': 15}
 ASSUMPTIONS = ['comparisons at 1e-9 relative to the system scale (closed-form surfaces) or the surface intersection tolerance (iterated shapes)',
@@ -66,6 +66,7 @@ def gen_case(rng, tier, i):
         amp = 0.3 if rng.random() < 0.5 else 0.03
         case['rx'] = float(rng.uniform(-amp, amp))
         case['ry'] = float(rng.uniform(-amp, amp)) if rng.random() < 0.6 else 0.0
+        case['post'] = bool(rng.random() < 0.5)
     elif rel == 'dummy':
         # only gaps where the dummy plane clears both neighbouring surfaces inside the beam (otherwise some rays
         # meet it behind themselves and are, as documented, reported non-finite)
@@ -89,6 +90,18 @@ def gen_case(rng, tier, i):
         case['beyond'] = False
     elif rel in ('scale', 'scale_system'):
         case['s'] = float(L.loguniform(rng, 0.01, 100.0))
+        # physical apertures (also on flat surfaces) must scale with the lens: they decide which rays survive
+        P = L.psys(spec)
+        ya, _ = P.marginal(L.epd_of(spec, P))
+        yb, _, _, _ = P.chief(spec['field_type'], max(f[0] for f in spec['fields']))
+        h = np.abs(np.asarray(ya, float)[1:]) + np.abs(np.asarray(yb, float))
+        if rng.random() < 0.7:
+            for j, s_ in enumerate(spec['surfaces'][:-1]):
+                if rng.random() < 0.4:
+                    rmax = float(max(1e-3, h[j]) * rng.uniform(0.5, 1.1))
+                    s_['aperture'] = {'r_max': rmax}
+                    if rng.random() < 0.3:
+                        s_['aperture']['r_min'] = 0.2 * rmax
     return case
 
 
@@ -105,6 +118,8 @@ def scaled_spec(spec, s):
         for q in ('dx', 'dy'):
             if su.get(q):
                 su[q] = su[q] * s
+        if su.get('aperture'):
+            su['aperture'] = {k_: v_ * s for k_, v_ in su['aperture'].items()}
     if sp['aperture'][0] == 'EPD':
         sp['aperture'] = ['EPD', sp['aperture'][1] * s]
     if sp['field_type'] == 'object_height':
@@ -114,15 +129,27 @@ def scaled_spec(spec, s):
 
 def records(lens):
     sg = lens.surface_group
-    return dict(x=sg.x.copy(), y=sg.y.copy(), z=sg.z.copy(), L=sg.L.copy(), M=sg.M.copy(), N=sg.N.copy(), opd=sg.opd.copy())
+    return dict(x=sg.x.copy(), y=sg.y.copy(), z=sg.z.copy(), L=sg.L.copy(), M=sg.M.copy(), N=sg.N.copy(), opd=sg.opd.copy(),
+                I=sg.intensity.copy())
 
 
 def cmp_records(rec, clause, A, B, scale, tol, msg, sx=1.0, sy=1.0, lens_scale=1.0, skipA=None, key=None):
     """B must equal A with x,L multiplied by sx; y,M by sy; positions and opd by lens_scale."""
     worst = 0.0
     same = True
-    for f in ('x', 'y', 'z', 'L', 'M', 'N', 'opd'):
+    _posA = A['x'] if (skipA is None or A['x'].shape[0] == B['x'].shape[0]) else np.delete(A['x'], skipA, axis=0)
+    for f in ('x', 'y', 'z', 'L', 'M', 'N', 'opd', 'I'):
+        if f not in A or f not in B:
+            continue
         a, b = A[f], B[f]
+        if f == 'I':
+            # the intensity of a lost ray is not specified: compare where the recorded point exists
+            a = np.where(np.isfinite(a) & np.isfinite(_posA), a, np.nan)
+            b = np.where(np.isfinite(b) & np.isfinite(B['x']), b, np.nan)
+        if f == 'I' and lens_scale != 1.0:
+            # absorption depends on absolute thickness, so only the survival pattern (which rays the scaled
+            # apertures let through) is comparable between a lens and its scaled copy
+            a, b = (a > 0).astype(float), (b > 0).astype(float)
         if skipA is not None:
             a = np.delete(a, skipA, axis=0) if a.shape[0] != b.shape[0] else a
         m = {'x': sx, 'L': sx, 'y': sy, 'M': sy}.get(f, 1.0)
@@ -195,6 +222,10 @@ def check_case(case, rec):
         # rays that meet the dummy plane behind themselves are, as documented, reported non-finite there: they are
         # excluded from the comparison (but a dummy that loses most rays is itself a violation)
         lost = ~np.isfinite(B['x'][g + 1]) & np.isfinite(A['x'][g + 1] if g + 1 < A['x'].shape[0] else A['x'][-1])
+        if g + 2 < B['x'].shape[0]:
+            # ... or reach the dummy only after having passed the next surface (the plane cuts it inside the beam),
+            # so that the next surface then lies behind them
+            lost |= np.isfinite(B['x'][g + 1]) & ~np.isfinite(B['x'][g + 2]) & np.isfinite(A['x'][g + 1])
         reach = np.isfinite(A['x'][g])
         rec.check('dummy-surface', reach.sum() < 6 or lost.sum() <= 0.5 * reach.sum(), key='dummy-surface:loses-rays',
                   msg=f'a dummy plane after surface {g} lost {int(lost.sum())} of {int(reach.sum())} rays')
@@ -230,7 +261,21 @@ def check_case(case, rec):
         su['rx'], su['ry'], su['dx'], su['dy'] = rx, ry, dx, dy
         sp['surfaces'][k - 2]['t'] = sp['surfaces'][k - 2]['t'] + dz
         su['t'] = su['t'] - dz
-        lens2 = L.build(sp)
+        if case.get('post'):
+            # the same re-description reached by EDITING the untilted lens afterwards (tilt / decentre variables and
+            # thickness edits), as optimisation and tolerancing do
+            from optiland.optimization.variable.variable import Variable
+            lens2 = L.build(spec)
+            Variable(lens2, 'tilt', surface_number=k, axis='x', apply_scaling=False).update(rx)
+            if ry:
+                Variable(lens2, 'tilt', surface_number=k, axis='y', apply_scaling=False).update(ry)
+            Variable(lens2, 'decenter', surface_number=k, axis='x', apply_scaling=False).update(dx)
+            Variable(lens2, 'decenter', surface_number=k, axis='y', apply_scaling=False).update(dy)
+            lens2.set_thickness(sp['surfaces'][k - 2]['t'], k - 1)
+            lens2.set_thickness(su['t'], k)
+            rec.cls('tilt-by-editing')
+        else:
+            lens2 = L.build(sp)
         x0, y0, z0, L0, M0, N0 = (A[f][0] for f in ('x', 'y', 'z', 'L', 'M', 'N'))
         if not np.all(np.isfinite(x0)):
             return
